@@ -24,6 +24,40 @@ func ruleP16ZeroSign(p *Prog, r *Report) {
 	if !r.anchorFn(rule, f, "klog.NewDurationFromString") || !r.anchorFn(rule, ts, "klog.duration.ToString") {
 		return
 	}
+	// ToStringWithSign prints the duration's OWN text (its notation included: the recorded sign
+	// of a zero, `-0m`), with at most a "+" in front
+	if tws := p.method("klog", "duration", "ToStringWithSign"); tws != nil {
+		for i, ret := range returnsOf(tws) {
+			var leaves []ssa.Value
+			concatLeaves(retResult(ret, 0), &leaves, 0)
+			okOwn := len(leaves) >= 1 && len(leaves) <= 4
+			if okOwn {
+				last := leaves[len(leaves)-1]
+				c, _ := callOf(strip(last))
+				okOwn = c != nil && sameFn(staticCallee(c), ts) && len(c.Common().Args) == 1 && plainDeref(c.Common().Args[0]) == ssa.Value(tws.Params[0])
+				if !okOwn && c != nil && sameFn(staticCallee(c), ts) && len(c.Common().Args) == 1 {
+					// the receiver is a value: a plain copy of it is the same duration
+					if u, isU := c.Common().Args[0].(*ssa.UnOp); isU && u.Op == token.MUL {
+						if al, isAl := u.X.(*ssa.Alloc); isAl {
+							if sts := storesTo(al); len(sts) == 1 && sts[0].val == ssa.Value(tws.Params[0]) {
+								okOwn = true
+							}
+						}
+					}
+					if strip(c.Common().Args[0]) == ssa.Value(tws.Params[0]) {
+						okOwn = true
+					}
+				}
+				// in front of it: "+", or a prefix variable that is "" or "+"
+				for _, l := range leaves[:len(leaves)-1] {
+					if sgn, isS := constString(l); !isS || (sgn != "+" && sgn != "") {
+						okOwn = false
+					}
+				}
+			}
+			r.check(okOwn, rule, fmt.Sprintf("with-sign:own-text#%d", i), p.instrPos(ret), "ToStringWithSign is the duration's own ToString(), at most with a + in front", "ToStringWithSign does not print the duration's own text (ToString of the receiver itself): the notation recorded with the value — the sign of a zero — is lost or replaced")
+		}
+	}
 	// the constructor call: sign*hours, sign*minutes
 	var ctor ssa.CallInstruction
 	var ctors []ssa.CallInstruction
@@ -490,6 +524,18 @@ func describeValue(v ssa.Value) string {
 }
 
 func init() {
+	extend("C10", "(P10-errors-kept) NewParserErrors keeps the list of errors it is given, and All() hands it back.", ruleP10ErrorsKept)
+	extend("C20", "Also (P10-errors-kept): the errors array of the JSON document holds every error the parser found.", ruleP10ErrorsKept)
+	extend("C06", "Also (P18-width): a table cell is padded by column width minus its measured width, both measured the same way (a cell wider than its column makes the padding negative, and strings.Repeat panics).", ruleP18Width)
+	extend("C17", "Also (P16-closed): a date is only ever built by the validating constructor, so `yesterday` is a real calendar day on the first of a month too.", ruleP16Closed)
+	extend("C20", "Also (P14-unquote, P13-translate): the tags listed in the JSON are the values as written (quotes of the other kind kept); the records listed are those every date flag given selects together.", ruleP14Unquote, ruleP13Translate)
+	extend("C06", "Also (P07-noshare): nothing the parser workers run writes package-level state (an unsynchronised memo map aborts the process with `concurrent map writes`).", ruleP07NoShare)
+	extend("C03", "(P03-insert-nonempty) Reconciler.insert is only ever asked to insert something (called with nothing it would still terminate the line before the insertion point).", ruleP03InsertNonEmpty)
+	extend("C01", "(P01-one-open-range) record.Start refuses a further open range on a search over all entries of the record.", ruleP01OneOpenRange)
+	extend("C13", "(P13-date-order) IsEqualTo and IsAfterOrEqual of dates are the lexicographic comparison of (year, month, day), evaluated in all 27 component orderings.", ruleP13DateOrder)
+	extend("C12", "Also (P13-date-order): sorting, --fill and the day split rest on the order of dates.", ruleP13DateOrder)
+	extend("C15", "Also (P13-date-order): a period contains a date when it is not before its first and not after its last day.", ruleP13DateOrder)
+	extend("C17", "Also (P13-date-order): `is this record today's or yesterday's` is a date comparison.", ruleP13DateOrder)
 	extend("C06", "(P06-lower-index) an element is addressed as x[v - c] only where v is known to be at least c (a test on the way, a non-empty slice, a counter that starts high enough).", ruleP06LowerIndex)
 	extend("C09", "Also (P01-skips): nothing but the one separator is skipped in front of an entry summary — a further SkipWhile there eats blanks that belong to the summary, and print no longer reproduces it.", ruleP01Skips)
 	extend("C01", "(P01-skips) every SkipWhile of the parser skips the set of its place: spaces and tabs in the headline, spaces only around the dash of a range.", ruleP01Skips)
@@ -522,6 +568,7 @@ func init() {
 	extend("C07", "Also (P20-input-order): with several CPUs the inputs are still put together in the order given. (P06-runewidth) the block parser advances by the bytes actually consumed, not by the re-encoded width of the decoded rune: a worker whose chunk ends in an invalid byte would otherwise fail where the serial parser does not.", ruleP20InputOrder, ruleP06RuneWidth)
 	extend("C06", "Also (P01-norecord): on every return of parse and of the parallel merge, records are handed back only when the error list is empty and errors never together with records — the statement's `either records and no errors, or no records and at least one error`.", ruleP01NoRecord)
 	extend("C16", "(P16-zerosign) the sign written in front of a zero duration is recorded exactly for zero values with a written sign, and printed back from that record.", ruleP16ZeroSign)
+	extend("C09", "(P01-lex, P01-headline-blanks) print starts by reading the file: the lexical patterns accept what the specification accepts (a one-character continuation line of an entry summary, say), and additional blanks between the parts of a headline are skipped — a valid file the parser refuses has no printed form at all.", ruleP01Lex, ruleP01HeadlineBlanks)
 	extend("C09", "(P16-zerosign) as under C16: a signed zero keeps its sign through print.", ruleP16ZeroSign)
 	extend("C15", "(P15-weekday) Weekday() is Go's weekday of that very date, renumbered Monday=1…Sunday=7 and nothing else.", ruleP15Weekday)
 	extend("C07", "(P07-lazy-linenumbers) nothing reachable from the block parser reads a block's file-global line position (it is final only after the parallel merge); errors compute their line number on demand.", ruleP07LazyLineNumbers)
@@ -1145,6 +1192,26 @@ func ruleP03LastLine(p *Prog, r *Report) {
 			}
 			sig = c
 		}
+		if !ok && pl.C == 0 && len(pl.Terms) == 2 {
+			// the same position counted from the back: len(block.Lines()) - trailing blank lines
+			all, tail := false, false
+			for k, coef := range pl.Terms {
+				v := strip(pl.leafV[k])
+				if lc, _ := callOf(v); lc != nil && coef == 1 {
+					if b, isB := lc.Common().Value.(*ssa.Builtin); isB && b.Name() == "len" {
+						if n2, r2, _, _ := methodCall(lc.Common().Args[0]); n2 == "Lines" && r2 != nil && strip(r2) == ssa.Value(f.Params[0]) {
+							all = true
+						}
+					}
+				}
+				if c, idx := callOf(v); c != nil && idx == 2 && coef == -1 {
+					if n2, r2, _, _ := methodCallOf(c); n2 == "SignificantLines" && strip(r2) == ssa.Value(f.Params[0]) {
+						tail = true
+					}
+				}
+			}
+			ok = all && tail
+		}
 		r.check(ok, rule, key, p.instrPos(ret), "end of record = preceding blank lines + significant lines, as the block itself counts them", "the end of the record is not computed from the block's own SignificantLines() (it is "+pl.String()+"): a whitespace-only line after the record counts as part of it, and lines are inserted below it")
 	}
 }
@@ -1556,6 +1623,51 @@ func ruleP05AfterWrite(p *Prog, r *Report) {
 	}
 	if n == 0 {
 		r.undecided(rule, "success", p.pos(f.Pos()), "no return on the success edge of ReconcileFile found")
+	}
+	// … and it cannot crash either: whatever runs after the write (printing the record, the
+	// warnings) reaches no panic that the totality check of C06 (P06-panics / P06-partial) leaves
+	// open. A crash there is a failed command — exit status 2 — whose edit is already on disk.
+	var after []*ssa.Function
+	eachInstr(f, func(in ssa.Instruction) {
+		c, ok := in.(ssa.CallInstruction)
+		if !ok || c == rc || !(rc.Block() == c.Block() && instrIndex(rc) < instrIndex(c) || rc.Block().Dominates(c.Block()) && rc.Block() != c.Block()) {
+			return
+		}
+		for _, g := range p.calleesAt(c) {
+			if p.inModFn(g) {
+				after = append(after, g)
+			}
+		}
+	})
+	if len(after) == 0 {
+		return
+	}
+	sub := &Report{p: p}
+	ruleP06Panics(p, sub)
+	open := map[string]string{}
+	for _, o := range sub.Obligs {
+		if o.Verdict == Violated {
+			open[o.Pos] = o.Key
+		}
+	}
+	reach := p.reach(after, nil, nil)
+	found := map[string]bool{}
+	for _, g := range reach.moduleFuncs() {
+		eachInstr(g, func(in ssa.Instruction) {
+			pn, ok := in.(*ssa.Panic)
+			if !ok {
+				return
+			}
+			key, isOpen := open[p.instrPos(pn)]
+			if !isOpen || found[key] {
+				return
+			}
+			found[key] = true
+			r.bad(rule, "crash-after-write:"+key, p.instrPos(pn), "a panic that C06 leaves open (%s) is reachable from what util.Reconcile does AFTER the file has been rewritten (path: %s): the command then crashes — a failure, exit status 2 — although its edit is on disk", key, strings.Join(reach.path(g), " -> "))
+		})
+	}
+	if len(found) == 0 {
+		r.ok(rule, "crash-after-write", p.instrPos(rc), "nothing that runs after the write reaches a panic that C06 leaves open (%d functions examined)", len(reach.moduleFuncs()))
 	}
 }
 
@@ -2485,6 +2597,36 @@ func ruleP11ApplyAlways(p *Prog, r *Report) {
 				}
 			}
 			r.check(bad == "", rule, key, p.instrPos(c), "the directive is consulted on every path that goes on to write the value", "the reformat directive is consulted only under a further condition ("+bad+"), and the operation goes on without it otherwise: on those paths the value is written in the default notation whatever the configured format or the file's style says")
+			// … and what the directive answers is applied: the callback that receives the format
+			// stores the reformatted value on every way through it (a way out that skips the
+			// store — "shifted times stay as they are" — ignores the directive for those values)
+			for _, a := range c.Common().Args {
+				lit := funcLiteral(a)
+				if lit == nil {
+					continue
+				}
+				var stores []*ssa.Store
+				eachInstr(lit, func(in2 ssa.Instruction) {
+					if st, isSt := in2.(*ssa.Store); isSt {
+						if _, isFV := st.Addr.(*ssa.FreeVar); isFV {
+							stores = append(stores, st)
+						}
+					}
+				})
+				skipped := ""
+				for _, ret := range returnsOf(lit) {
+					reached := false
+					for _, st := range stores {
+						if st.Block() == ret.Block() || st.Block().Dominates(ret.Block()) {
+							reached = true
+						}
+					}
+					if !reached {
+						skipped = p.instrPos(ret)
+					}
+				}
+				r.check(len(stores) > 0 && skipped == "", rule, key+":applied", p.instrPos(c), "the callback stores the reformatted value on every way through it", "the callback that receives the format can return ("+skipped+") without storing the reformatted value: for the values that take that way the directive — the file's style or the configured format — is ignored")
+			}
 		})
 	}
 	if n < 3 {
@@ -2793,7 +2935,46 @@ func nonEmptyByConstruction(x ssa.Value, seen map[ssa.Value]bool) bool {
 		return true // a cycle through values that are all non-empty otherwise
 	}
 	seen[x] = true
+	// a field of a struct in which a local function / private helper hands over several things
+	if bc, fi, isComp := componentOf(x); isComp {
+		if hc, isCall := bc.(*ssa.Call); isCall {
+			if g := staticCallee(hc); g != nil && (g.Parent() != nil || isHelper(g) || (gp != nil && gp.inMod(g))) {
+				rets := plainReturnsOf(originFn(g))
+				for _, ret := range rets {
+					if len(ret.Results) != 1 {
+						return false
+					}
+					fv, isLit := compositeLitField(ret.Results[0], fi)
+					if !isLit || fv == nil || !nonEmptyByConstruction(fv, seen) {
+						return false
+					}
+				}
+				return len(rets) > 0
+			}
+		}
+	}
 	switch y := x.(type) {
+	case *ssa.MakeSlice:
+		// make([]T, c + len(a) + …) with c >= 1
+		pl := polyOf(y.Len)
+		if pl.C >= 1 {
+			okLen := true
+			for k, coef := range pl.Terms {
+				lc, _ := callOf(strip(pl.leafV[k]))
+				isLen := false
+				if lc != nil {
+					if bi, isB := lc.Common().Value.(*ssa.Builtin); isB && bi.Name() == "len" {
+						isLen = true
+					}
+				}
+				if coef < 0 || !isLen {
+					okLen = false
+				}
+			}
+			if okLen {
+				return true
+			}
+		}
 	case *ssa.Slice:
 		if a, ok := y.X.(*ssa.Alloc); ok && y.Low == nil && y.High == nil {
 			if pt, ok := a.Type().Underlying().(*types.Pointer); ok {
@@ -2807,7 +2988,29 @@ func nonEmptyByConstruction(x ssa.Value, seen map[ssa.Value]bool) bool {
 			if es, ok := sliceLitElems(y.Call.Args[1]); ok && len(es) > 0 {
 				return true
 			}
-			return nonEmptyByConstruction(y.Call.Args[0], seen)
+			return nonEmptyByConstruction(y.Call.Args[0], seen) || nonEmptyByConstruction(y.Call.Args[1], seen)
+		}
+		// the result of a function literal called on the spot / a private helper: every return
+		if g := staticCallee(y); g != nil && (g.Parent() != nil || isHelper(g)) && g.Signature.Results().Len() == 1 {
+			rets := returnsOf(originFn(g))
+			for _, ret := range rets {
+				if !nonEmptyByConstruction(ret.Results[0], seen) {
+					return false
+				}
+			}
+			return len(rets) > 0
+		}
+	case *ssa.Extract:
+		if c, ok := y.Tuple.(*ssa.Call); ok {
+			if g := staticCallee(c); g != nil && (g.Parent() != nil || isHelper(g)) {
+				rets := returnsOf(originFn(g))
+				for _, ret := range rets {
+					if y.Index >= len(ret.Results) || !nonEmptyByConstruction(ret.Results[y.Index], seen) {
+						return false
+					}
+				}
+				return len(rets) > 0
+			}
 		}
 	case *ssa.Phi:
 		for _, e := range y.Edges {
@@ -2824,6 +3027,9 @@ func nonEmptyByConstruction(x ssa.Value, seen map[ssa.Value]bool) bool {
 					return false
 				}
 				for _, st := range sts {
+					if overwrittenAtOnce(st, sts) {
+						continue // `x := make(…); x = append(x, first)`: nobody sees the first value
+					}
 					if !nonEmptyByConstruction(st.val, seen) {
 						return false
 					}
@@ -2850,6 +3056,518 @@ func isPreviousByteOfChunkBoundary(in ssa.Instruction) bool {
 			if k, isK := constInt(bo.X); isK && k == '\r' {
 				return true
 			}
+		}
+	}
+	return false
+}
+
+// P13-date-order — the order of dates is the order of (year, month, day): IsEqualTo holds exactly
+// for equal triples, IsAfterOrEqual exactly when the receiver's triple is lexicographically not
+// smaller. Both methods touch their operands through comparisons of the three accessors only, so
+// they are decided by running their control flow under each of the 27 ways the components can
+// compare (<, =, >) and comparing the answer with the lexicographic one. A single numeric key
+// (year·a + month·b + day) is accepted when a and b leave room for every month and day
+// (b > 30, a > 11·b + 30); anything else the rule cannot read is reported as undecided.
+func ruleP13DateOrder(p *Prog, r *Report) {
+	const rule = "P13-date-order"
+	for _, m := range []string{"IsEqualTo", "IsAfterOrEqual"} {
+		f := p.method("klog", "date", m)
+		if !r.anchorFn(rule, f, "(*date)."+m) {
+			continue
+		}
+		want := func(sy, sm, sd int) bool {
+			if m == "IsEqualTo" {
+				return sy == 0 && sm == 0 && sd == 0
+			}
+			switch {
+			case sy != 0:
+				return sy > 0
+			case sm != 0:
+				return sm > 0
+			default:
+				return sd >= 0
+			}
+		}
+		bad, undecided := "", ""
+		for sy := -1; sy <= 1 && undecided == ""; sy++ {
+			for sm := -1; sm <= 1 && undecided == ""; sm++ {
+				for sd := -1; sd <= 1 && undecided == ""; sd++ {
+					got, ok, why := simulateDateCmp(f, map[string]int{"Year": sy, "Month": sm, "Day": sd})
+					if !ok {
+						undecided = why
+						break
+					}
+					if got != want(sy, sm, sd) && bad == "" {
+						rel := func(s int) string { return map[int]string{-1: "<", 0: "=", 1: ">"}[s] }
+						bad = fmt.Sprintf("for year %s, month %s, day %s it answers %v", rel(sy), rel(sm), rel(sd), got)
+					}
+				}
+			}
+		}
+		if undecided != "" {
+			// a single numeric key per date
+			if okKey, whyKey := dateKeyComparison(p, f, m); okKey {
+				r.ok(rule, m, p.pos(f.Pos()), "compares one numeric key per date whose weights leave room for every month and day")
+				continue
+			} else if whyKey != "" {
+				r.bad(rule, m, p.pos(f.Pos()), "%s compares the dates through a numeric key that does not order (or separate) all dates: %s — two different dates get the same key, or a later date the smaller one (the end of a month or year against the start of the next), and every filter, sort and day comparison built on it is wrong for those dates", m, whyKey)
+				continue
+			}
+			r.undecided(rule, m, p.pos(f.Pos()), "%s is not a comparison of the (year, month, day) accessors that can be evaluated case by case: %s", m, undecided)
+			continue
+		}
+		r.check(bad == "", rule, m, p.pos(f.Pos()), m+" is the lexicographic comparison of (year, month, day) in all 27 cases", m+" is not the lexicographic comparison of (year, month, day): "+bad)
+	}
+}
+
+// simulateDateCmp runs f (a bool function of the receiver and one other date) under the given
+// signs of receiver-vs-other per accessor.
+func simulateDateCmp(f *ssa.Function, sign map[string]int) (result bool, ok bool, why string) {
+	if len(f.Params) != 2 || len(f.Blocks) == 0 {
+		return false, false, "unexpected signature"
+	}
+	recv, other := ssa.Value(f.Params[0]), ssa.Value(f.Params[1])
+	side := func(v ssa.Value) (string, int) { // accessor name, +1 receiver / -1 other
+		// the receiver's own field, which the accessor of that name returns
+		if base, fld := fieldLoad(v); base != nil && fld != "" {
+			acc := map[string]string{"year": "Year", "month": "Month", "day": "Day"}[fld]
+			if _, known := sign[acc]; known && acc != "" {
+				switch strip(base) {
+				case recv:
+					return acc, 1
+				case other:
+					return acc, -1
+				}
+			}
+		}
+		nm, rv, args, _ := methodCall(v)
+		if nm == "" || rv == nil || len(args) != 0 {
+			return "", 0
+		}
+		if _, known := sign[nm]; !known {
+			return "", 0
+		}
+		switch strip(rv) {
+		case recv:
+			return nm, 1
+		case other:
+			return nm, -1
+		}
+		return "", 0
+	}
+	phiVal := map[*ssa.Phi]ssa.Value{}
+	var eval func(v ssa.Value, depth int) (bool, bool)
+	eval = func(v ssa.Value, depth int) (bool, bool) {
+		if depth > 8 {
+			return false, false
+		}
+		if b, isB := constBool(v); isB {
+			return b, true
+		}
+		switch x := v.(type) {
+		case *ssa.UnOp:
+			if x.Op == token.NOT {
+				b, ok := eval(x.X, depth+1)
+				return !b, ok
+			}
+		case *ssa.Phi:
+			if e, known := phiVal[x]; known {
+				return eval(e, depth+1)
+			}
+		case *ssa.BinOp:
+			na, sa := side(x.X)
+			nb, sb := side(x.Y)
+			if na == "" || na != nb || sa == sb {
+				return false, false
+			}
+			s := sign[na] * sa // sign of X relative to Y
+			switch x.Op {
+			case token.EQL:
+				return s == 0, true
+			case token.NEQ:
+				return s != 0, true
+			case token.LSS:
+				return s < 0, true
+			case token.LEQ:
+				return s <= 0, true
+			case token.GTR:
+				return s > 0, true
+			case token.GEQ:
+				return s >= 0, true
+			}
+		}
+		return false, false
+	}
+	cur := f.Blocks[0]
+	var prev *ssa.BasicBlock
+	for steps := 0; steps < 64; steps++ {
+		for _, in := range cur.Instrs {
+			ph, isPhi := in.(*ssa.Phi)
+			if !isPhi {
+				break
+			}
+			for i, pb := range cur.Preds {
+				if pb == prev {
+					phiVal[ph] = ph.Edges[i]
+				}
+			}
+		}
+		switch t := cur.Instrs[len(cur.Instrs)-1].(type) {
+		case *ssa.Return:
+			if len(t.Results) != 1 {
+				return false, false, "not a single result"
+			}
+			b, ok := eval(t.Results[0], 0)
+			if !ok {
+				return false, false, "the value returned at " + f.Prog.Fset.Position(t.Pos()).String() + " is not a comparison of accessors"
+			}
+			return b, true, ""
+		case *ssa.If:
+			b, ok := eval(t.Cond, 0)
+			if !ok {
+				return false, false, "a branch condition is not a comparison of accessors"
+			}
+			prev = cur
+			if b {
+				cur = cur.Succs[0]
+			} else {
+				cur = cur.Succs[1]
+			}
+		case *ssa.Jump:
+			prev, cur = cur, cur.Succs[0]
+		default:
+			return false, false, "unexpected control flow"
+		}
+	}
+	return false, false, "does not terminate within 64 steps"
+}
+
+// dateKeyComparison: f returns key(receiver) OP key(other) with key = a·Year + b·Month + c·Day
+// (+ constant) computed by one helper or written out; decides whether the weights order dates.
+func dateKeyComparison(p *Prog, f *ssa.Function, m string) (bool, string) {
+	rets := returnsOf(f)
+	if len(rets) != 1 {
+		return false, ""
+	}
+	bo, ok := rets[0].Results[0].(*ssa.BinOp)
+	if !ok {
+		return false, ""
+	}
+	wantOp := map[string]token.Token{"IsEqualTo": token.EQL, "IsAfterOrEqual": token.GEQ}[m]
+	weights := func(v ssa.Value, who ssa.Value) (map[string]int64, bool, string) {
+		// a helper applied to the date, or the expression itself
+		expr, subject := v, who
+		if c, isCall := v.(*ssa.Call); isCall {
+			if g := rawStaticCallee(c); g != nil && p.inModFn(g) && len(c.Call.Args) == 1 && strip(c.Call.Args[0]) == who && len(returnsOf(g)) == 1 && len(g.Params) == 1 {
+				expr, subject = returnsOf(g)[0].Results[0], g.Params[0]
+			}
+		}
+		pl := polyOf(expr)
+		out := map[string]int64{}
+		for k, coef := range pl.Terms {
+			nm, rv, _, _ := methodCall(pl.leafV[k])
+			if (nm == "Year" || nm == "Month" || nm == "Day") && rv != nil && strip(rv) == subject {
+				out[nm] += coef
+				continue
+			}
+			return nil, false, "the key contains " + describeValue(pl.leafV[k]) + ", which is none of Year(), Month(), Day()"
+		}
+		return out, true, ""
+	}
+	wa, okA, whyA := weights(bo.X, f.Params[0])
+	wb, okB, whyB := weights(bo.Y, f.Params[1])
+	if !okA || !okB {
+		if whyA == "" {
+			whyA = whyB
+		}
+		return false, whyA
+	}
+	if bo.Op != wantOp {
+		return false, "the keys are compared with " + bo.Op.String()
+	}
+	for _, k := range []string{"Year", "Month", "Day"} {
+		if wa[k] != wb[k] {
+			return false, "the two sides weigh " + k + " differently"
+		}
+	}
+	a, b, c := wa["Year"], wa["Month"], wa["Day"]
+	if c < 1 || b <= 30*c || a <= 11*b+30*c {
+		return false, fmt.Sprintf("weights year·%d + month·%d + day·%d leave no room for 12 months of up to 31 days", a, b, c)
+	}
+	return true, ""
+}
+
+// P01-one-open-range — "a second open range" is refused wherever the first one stands in the
+// record: record.Start decides by asking for the record's open range — a search over all its
+// entries — not by looking at one position (the last entry, say: `8:00 - ?`, `1h`, `9:00 - ?`
+// would then be accepted, two open ranges in one record).
+func ruleP01OneOpenRange(p *Prog, r *Report) {
+	const rule = "P01-one-open-range"
+	f := p.method("klog", "record", "Start")
+	if !r.anchorFn(rule, f, "(*record).Start") {
+		return
+	}
+	searchesAll := func(v ssa.Value) bool {
+		c, _ := callOf(strip(v))
+		if c == nil {
+			return false
+		}
+		g := rawStaticCallee(c)
+		if g == nil || !p.inModFn(g) || len(c.Common().Args) == 0 || strip(c.Common().Args[0]) != ssa.Value(f.Params[0]) {
+			return false
+		}
+		found := false
+		eachVInstr(originFn(g), func(in ssa.Instruction) {
+			ta, ok := in.(*ssa.TypeAssert)
+			if !ok || typeNameOf(derefType(ta.AssertedType)) != "openRange" {
+				return
+			}
+			base, fld := fieldLoad(ta.X)
+			if fld != "value" || base == nil {
+				return
+			}
+			if coll := rangeElemOf(base); coll != nil {
+				if _, cf := fieldLoad(coll); cf == "entries" {
+					found = true
+				}
+			}
+		})
+		return found
+	}
+	n := 0
+	for i, ret := range returnsOf(f) {
+		ev := retResult(ret, 0)
+		if isNilConst(ev) || p.nilnessAt(ret.Block(), ev, 0) != nnNonNil {
+			continue
+		}
+		n++
+		ok := false
+		for _, g := range guardsOf(ret.Block()) {
+			if x, isNil, isG := nilFact(g); isG && !isNil && searchesAll(x) {
+				ok = true
+			}
+		}
+		r.check(ok, rule, fmt.Sprintf("refusal#%d", i), p.instrPos(ret), "a further open range is refused when a search over all entries of the record finds one", "record.Start refuses a further open range on a test that does not search all entries of the record: an open range that stands anywhere else in the record goes unnoticed, and the parser accepts a record with two open ranges")
+	}
+	if n == 0 {
+		r.bad(rule, "refusal", p.pos(f.Pos()), "record.Start never refuses: a record can have any number of open ranges")
+	}
+}
+
+// P03-insert-nonempty — Reconciler.insert is only ever asked to insert something. Besides
+// splicing the new lines in, insert gives the line BEFORE the insertion point a line ending when
+// it has none (the file's last line); called with nothing to insert it would still do that — a
+// line the command has no business with changes. Every call passes a list that is non-empty by
+// construction, the result of toMultilineEntryTexts (which always yields the value line), or one
+// built from S[k:] under len(S) > k.
+func ruleP03InsertNonEmpty(p *Prog, r *Report) {
+	const rule = "P03-insert-nonempty"
+	ins := p.method("klog/parser/reconciling", "Reconciler", "insert")
+	if !r.anchorFn(rule, ins, "Reconciler.insert") {
+		return
+	}
+	n := 0
+	for _, f := range p.srcFns {
+		if pkgPathOfFn(f) != modPath+"/klog/parser/reconciling" || len(f.Blocks) == 0 {
+			continue
+		}
+		idx := 0
+		for _, c := range callsTo(f, ins) {
+			n++
+			idx++
+			key := fmt.Sprintf("%s#%d", fnName(outermost(f)), idx)
+			texts := c.Common().Args[len(c.Common().Args)-1]
+			ok, how := false, ""
+			switch {
+			case nonEmptyByConstruction(texts, map[ssa.Value]bool{}):
+				ok, how = true, "non-empty by construction"
+			default:
+				// the result of a module function all of whose returns are non-empty by construction
+				if hc, hi := callOf(strip(texts)); hc != nil && hi == 0 {
+					if g := rawStaticCallee(hc); g != nil && p.inModFn(g) && len(returnsOf(originFn(g))) > 0 {
+						all := true
+						for _, ret := range returnsOf(originFn(g)) {
+							if !nonEmptyByConstruction(ret.Results[0], map[ssa.Value]bool{}) {
+								all = false
+							}
+						}
+						if all {
+							ok, how = true, "every return of "+fnBase(g)+" is a non-empty list"
+						}
+					}
+				}
+				// built element by element from S[k:], under len(S) > k
+				if !ok {
+					apps, _ := accWeb(texts)
+					for _, a := range apps {
+						atCall := map[ssa.Value]bool{}
+						for _, cg := range guardsOf(c.Block()) {
+							atCall[cg.Cond] = true
+						}
+						for _, g := range guardsOf(a.Block()) {
+							bo, isB := g.Cond.(*ssa.BinOp)
+							if !isB || bo.Op != token.LSS || !g.Pol {
+								continue
+							}
+							// the append runs in every iteration: nothing but this loop test (and what
+							// holds at the call anyway) decides about it
+							every := true
+							for _, g2 := range guardsOf(a.Block()) {
+								if g2.Cond != g.Cond && !atCall[g2.Cond] {
+									every = false
+								}
+							}
+							if !every {
+								continue
+							}
+							lc, isLen := bo.Y.(*ssa.Call)
+							if !isLen || len(lc.Call.Args) != 1 {
+								continue
+							}
+							if bi, isBi := lc.Call.Value.(*ssa.Builtin); !isBi || bi.Name() != "len" {
+								continue
+							}
+							// `range S[k:]`, or `for i := k; i < len(S); i++`
+							var subject ssa.Value
+							var k int64
+							isK := false
+							if sl, isSl := strip(lc.Call.Args[0]).(*ssa.Slice); isSl && sl.Low != nil && isLoopGuard(g) {
+								subject = sl.X
+								k, isK = constInt(sl.Low)
+							} else if ph, isPhi := bo.X.(*ssa.Phi); isPhi && len(ph.Edges) == 2 {
+								for _, e := range ph.Edges {
+									if kk, isC := constInt(e); isC {
+										subject, k, isK = lc.Call.Args[0], kk, true
+									} else if st, isSt := e.(*ssa.BinOp); !isSt || st.Op != token.ADD || st.X != ssa.Value(ph) {
+										isK = false
+										break
+									}
+								}
+							}
+							if !isK || subject == nil {
+								continue
+							}
+							sl := struct{ X ssa.Value }{subject}
+							// the guard at the call speaks of the very list that is walked
+							// (`rest := S[1:]; if len(rest) == 0 { return }`)
+							for _, cg := range guardsOf(c.Block()) {
+								cb, okN := normCmp(cg.Cond)
+								if !okN {
+									continue
+								}
+								l0, isL0 := strip(cb.X).(*ssa.Call)
+								kk, isKK := constInt(cb.Y)
+								if !isL0 || !isKK || len(l0.Call.Args) != 1 || !(l0.Call.Args[0] == lc.Call.Args[0] || strip(l0.Call.Args[0]) == strip(lc.Call.Args[0])) {
+									continue
+								}
+								if bi0, isB0 := l0.Call.Value.(*ssa.Builtin); !isB0 || bi0.Name() != "len" {
+									continue
+								}
+								if _, isSl := strip(lc.Call.Args[0]).(*ssa.Slice); !isSl || !isLoopGuard(g) {
+									continue
+								}
+								if (cg.Pol && ((cb.Op == token.GTR && kk == 0) || (cb.Op == token.NEQ && kk == 0) || (cb.Op == token.GEQ && kk == 1))) || (!cg.Pol && ((cb.Op == token.EQL && kk == 0) || (cb.Op == token.LSS && kk == 1) || (cb.Op == token.LEQ && kk == 0))) {
+									ok, how = true, "one element per element of the list walked, which is not empty at the call"
+								}
+							}
+							// the guard at the call: len(S) > k
+							for _, cg := range guardsOf(c.Block()) {
+								cb, okN := normCmp(cg.Cond)
+								if !okN {
+									continue
+								}
+								if !cg.Pol {
+									// `if len(S) == k { return }` in front: S[k:] was taken (so
+									// len(S) >= k) and len(S) is not k
+									if l0, isL0 := strip(cb.X).(*ssa.Call); isL0 && cb.Op == token.EQL && len(l0.Call.Args) == 1 && (sameValue(l0.Call.Args[0], sl.X) || strip(l0.Call.Args[0]) == strip(sl.X)) {
+										if kk, isKK := constInt(cb.Y); isKK && kk == k {
+											ok, how = true, fmt.Sprintf("one element per element of S[%d:], called where len(S) != %d", k, k)
+										}
+									}
+									continue
+								}
+								l2, isLen2 := strip(cb.X).(*ssa.Call)
+								kk, isKK := constInt(cb.Y)
+								if !isLen2 || !isKK || len(l2.Call.Args) != 1 || !(sameValue(l2.Call.Args[0], sl.X) || strip(l2.Call.Args[0]) == strip(sl.X)) {
+									continue
+								}
+								if (cb.Op == token.GTR && kk >= k) || (cb.Op == token.GEQ && kk > k) {
+									ok, how = true, fmt.Sprintf("one element per element of S[%d:], called under len(S) > %d", k, k)
+								}
+							}
+						}
+					}
+				}
+			}
+			r.check(ok, rule, key, p.instrPos(c), "insert is given something to insert ("+how+")", "Reconciler.insert can be called with nothing to insert: it then still gives the line before the insertion point a line ending when it has none — the last line of a file without final newline changes although nothing was added after it")
+		}
+	}
+	if n < 3 {
+		r.undecided(rule, "floor", "-", "found %d calls of Reconciler.insert, expected at least 3", n)
+	}
+}
+
+// P10-errors-kept — every error the parser found is shown: NewParserErrors keeps the list it is
+// given as it is (the field of the value it builds is its parameter), and All() hands that field
+// back. Nothing in between drops "repeated" errors — two files can have the same mistake in the
+// same place, and each of them is to be told.
+func ruleP10ErrorsKept(p *Prog, r *Report) {
+	const rule = "P10-errors-kept"
+	ctor := p.fn("klog/app", "NewParserErrors")
+	all := p.method("klog/app", "parserErrors", "All")
+	if !r.anchorFn(rule, ctor, "app.NewParserErrors") || !r.anchorFn(rule, all, "parserErrors.All") {
+		return
+	}
+	okStore, field := false, ""
+	eachVInstr(ctor, func(in ssa.Instruction) {
+		st, ok := in.(*ssa.Store)
+		if !ok {
+			return
+		}
+		fa, ok := st.Addr.(*ssa.FieldAddr)
+		if !ok || typeNameOf(derefType(fa.X.Type())) != "parserErrors" || !isSliceOf(st.Val.Type(), "Error") {
+			return
+		}
+		field = fieldName(fa)
+		v := strip(st.Val)
+		if v == ssa.Value(ctor.Params[0]) {
+			okStore = true
+			return
+		}
+		// a full copy: append(nil/empty, errs...)
+		if c, isCall := v.(*ssa.Call); isCall {
+			if bi, isB := c.Call.Value.(*ssa.Builtin); isB && bi.Name() == "append" && len(c.Call.Args) == 2 && strip(c.Call.Args[1]) == ssa.Value(ctor.Params[0]) && (isNilConst(c.Call.Args[0]) || isEmptySliceLit(c.Call.Args[0])) {
+				okStore = true
+			}
+		}
+	})
+	r.check(okStore, rule, "NewParserErrors", p.pos(ctor.Pos()), "the errors given are kept as they are", "NewParserErrors does not keep the very list of errors it is given (errors are filtered, de-duplicated or rebuilt on the way): an error the parser found is not reported")
+	okAll := false
+	for _, ret := range returnsOf(all) {
+		if _, fld := fieldLoad(retResult(ret, 0)); fld != "" && (field == "" || fld == field) {
+			okAll = true
+		}
+	}
+	r.check(okAll, rule, "All", p.pos(all.Pos()), "All() hands back the list that was stored", "ParserErrors.All() does not hand back the stored list of errors")
+}
+
+// overwrittenAtOnce: the stored value is replaced by a later store in the same block before any
+// call of a function (which might read the variable) runs.
+func overwrittenAtOnce(st storeSite, all []storeSite) bool {
+	for _, o := range all {
+		if o.in == st.in || o.in.Block() != st.in.Block() || instrIndex(o.in) <= instrIndex(st.in) {
+			continue
+		}
+		clean := true
+		for _, in := range st.in.Block().Instrs[instrIndex(st.in)+1 : instrIndex(o.in)] {
+			if c, isC := in.(ssa.CallInstruction); isC {
+				if _, isB := c.Common().Value.(*ssa.Builtin); !isB {
+					clean = false
+				}
+			}
+		}
+		if clean {
+			return true
 		}
 	}
 	return false
